@@ -19,6 +19,7 @@ import json
 from concurrent.futures import ThreadPoolExecutor
 
 import common as C
+import re_probes as RP
 import genextract
 import pairedextract
 import plangen as G
@@ -614,6 +615,7 @@ def _real_rel_plans(ctx):
             n = _real_one(res, name, par, [[None, None]])
             ks = sorted(rng.sample(range(1, n + 1), min(n, 40)))
             _real_one(res, name, par, [[k, "RequestStop" if k % 5 == 0 else "RuntimeError"] for k in ks])
+    RP.add_to(res, ["relative-moves"])
     return res
 
 
@@ -622,6 +624,9 @@ def run_impl_only(ctx):
 
 
 def replay(ctx, data):
+    r = RP.replay(data)
+    if r is not None:
+        return r
     G.quiet_unraisable()
     res = C.Result()
     case = dict(data["case"])
